@@ -568,13 +568,14 @@ def list_form(ctx):
     n = 0
     for name, fn in sorted(mod.functions.items()):
         q = 'mnemonic:' + name
+        if not any(isinstance(c, ast.Constant) and c.value == 'wordlist' for c in ast.walk(fn)):
+            continue                # only functions that open a file of the wordlist directory
         for a in walk_no_nested(fn):
-            if not (isinstance(a, ast.Assign) and any(norm(t).split('.')[-1].lstrip('_') == 'wordlist' for t in a.targets)):
+            if not isinstance(a, ast.Assign):
                 continue
             v = a.value
-            if isinstance(v, ast.List) and not v.elts:
-                continue
-            if isinstance(v, (ast.Name, ast.Attribute)):
+            # a load is recognised by what it reads (lines / content of a file), not by the name it is stored under
+            if not any(isinstance(c, ast.Call) and isinstance(c.func, ast.Attribute) and c.func.attr in ('readlines', 'read', 'read_text', 'read_bytes', 'splitlines') for c in ast.walk(v)):
                 continue
             n += 1
             forms, stripped, filt = [], False, []
